@@ -203,6 +203,24 @@ class RefList(Spec):
         return list(vals or [])
 
 
+class Chunks(Spec):
+    """A list of byte strings of which only the concatenation matters."""
+
+    def __init__(self, small=((), (b"a",), (b"a", b"bc")), kind="bytes"):
+        self._small = small
+        self.kind = kind
+
+    def fresh(self, name):
+        return core.SChunks(core.fresh_seq(name, self.kind), self.kind)
+
+    def small(self):
+        return [list(x) for x in self._small]
+
+    def from_model(self, model, name, symbols):
+        v = core.model_value(model, self.kind, name)
+        return [v] if v else []
+
+
 class ValList(Spec):
     """A list of opaque payload values."""
 
